@@ -1,7 +1,128 @@
-(* C01 — property theorems. *)
-From Coq Require Import List NArith.
-From C01 Require Import Model Proofs.
+(* C01 — property theorems. Only statements, each closed by `exact <lemma>`, Print Assumptions
+   beneath, and the non-vacuity / refutation examples.
 
+   Reading aid.  `run dec_m h` executes a history h (acknowledged bulks, crashes inside a bulk at
+   any operation boundary with a torn write of any length and power loss, idle power loss,
+   crashes inside the start-up, starts) on the byte-level model of the docs/meta files;
+   `dec_m`/`dec_d` are the (arbitrary) decompressors; `wf_hist` says that every bulk of h decodes
+   to its own non-empty documents and that equal IDs carry equal documents; `acked_of h` /
+   `tried_of h` are the bulks h acknowledges / interrupts; `fetch`/`search` read through the index
+   rebuilt by the last start. *)
+From Coq Require Import List NArith.
+From C01 Require Import Model Proofs Proofs2 Proofs4 Proofs6 CaseDefs Witness.
+Import ListNotations.
+
+(* The store always comes back up: no history makes a start-up (or anything else) fail — replay
+   never reads a header at a non-block boundary and never runs out of fuel. *)
+Theorem C01_restart_total :
+  forall dec_m dec_d h, wf_hist dec_m dec_d h -> exists s, run dec_m h = Ok s.
+Proof. exact restart_total. Qed.
+Print Assumptions C01_restart_total.
+
+(* Acknowledged bulks are durable: after ANY history, whenever the store is up, every document of
+   every acknowledged bulk is fetched byte for byte and found by each of its tokens. *)
+Theorem C01_acked_durable :
+  forall dec_m dec_d h s p b d,
+    wf_hist dec_m dec_d h -> run dec_m h = Ok s -> s_proc s = Some p ->
+    In b (acked_of h) -> In d (b_docs b) ->
+    fetch dec_d (s_disk s) p (d_id d) = Body (d_body d) /\
+    (forall t, In t (d_toks d) -> In (d_id d) (search p t)).
+Proof. exact acked_durable. Qed.
+Print Assumptions C01_acked_durable.
+
+(* Interrupted bulks are atomic: what a running store shows is exactly the documents of a list
+   `dur` of whole bulks, acked <= dur <= acked + interrupted: bulks in dur are wholly present with
+   their own bytes, every other ID is absent and unfindable, fetch never fails, search returns
+   nothing else. *)
+Theorem C01_unacked_atomic :
+  forall dec_m dec_d h s p,
+    wf_hist dec_m dec_d h -> run dec_m h = Ok s -> s_proc s = Some p ->
+    exists dur,
+      incl (acked_of h) dur /\ incl dur (acked_of h ++ tried_of h) /\
+      (forall b d, In b dur -> In d (b_docs b) ->
+         fetch dec_d (s_disk s) p (d_id d) = Body (d_body d) /\
+         (forall t, In t (d_toks d) -> In (d_id d) (search p t))) /\
+      (forall id, (forall b d, In b dur -> In d (b_docs b) -> d_id d <> id) ->
+         fetch dec_d (s_disk s) p id = Absent /\ (forall t, ~ In id (search p t))) /\
+      (forall id, fetch dec_d (s_disk s) p id <> FetchErr) /\
+      (forall t id, In id (search p t) ->
+         exists b d, In b dur /\ In d (b_docs b) /\ d_id d = id /\ In t (d_toks d)).
+Proof. exact durable_char. Qed.
+Print Assumptions C01_unacked_atomic.
+
+(* ... and the verdict stands across all later operations: what was fetched stays fetchable with
+   the same bytes, what was found stays found, and what was absent stays absent unless a later
+   bulk carries that ID. *)
+Theorem C01_verdict_stable :
+  forall dec_m dec_d h h' s p s' p',
+    wf_hist dec_m dec_d (h ++ h') ->
+    run dec_m h = Ok s -> s_proc s = Some p ->
+    run dec_m (h ++ h') = Ok s' -> s_proc s' = Some p' ->
+    (forall id x, fetch dec_d (s_disk s) p id = Body x -> fetch dec_d (s_disk s') p' id = Body x) /\
+    (forall t id, In id (search p t) -> In id (search p' t)) /\
+    (forall id, fetch dec_d (s_disk s) p id = Absent ->
+       (forall b d, In b (hist_bulks h') -> In d (b_docs b) -> d_id d <> id) ->
+       fetch dec_d (s_disk s') p' id = Absent /\ (forall t, ~ In id (search p' t))).
+Proof. exact verdict_stable. Qed.
+Print Assumptions C01_verdict_stable.
+
+(* Replay derives docs offsets by summing Ext1; the Ext2 stored in the meta blocks (e2) is
+   irrelevant; an unreadable tail is skipped. *)
+Theorem C01_replay_blocks :
+  forall dec_m dec_d bs fuel pre e2 tm dpos acc,
+    Forall (wf_bulk dec_m dec_d) bs -> eof_tail tm -> length bs < fuel ->
+    replay_loop dec_m fuel (pre ++ mfile bs e2 ++ tm) (length pre) dpos acc
+    = Ok (length pre + length (mfile bs e2), dpos + length (dfile bs), rev acc ++ index_of bs dpos).
+Proof. exact replay_loop_blocks. Qed.
+Print Assumptions C01_replay_blocks.
+
+(* lem:hdr_prefix_eof — a strict prefix of a block, wherever it starts, is reported as EOF *)
+Theorem C01_hdr_prefix_eof :
+  forall pre pay raw e1 e2 c, c < length (block pay raw e1 e2) ->
+    read_doc_block (pre ++ firstn c (block pay raw e1 e2)) (length pre) = RdEOF.
+Proof. exact read_block_prefix_eof. Qed.
+Print Assumptions C01_hdr_prefix_eof.
+
+(* lem:le64_roundtrip *)
 Theorem C01_le64_roundtrip : forall x, le_dec (le64 x) = x.
 Proof. exact (le_roundtrip 7). Qed.
 Print Assumptions C01_le64_roundtrip.
+
+(* ---------- non-vacuity: the hypotheses are met by concrete histories with a crash, a start,
+   further ingestion and a second start; the acknowledged bulks are [wb1; wb3] ---------- *)
+Example C01_nonvacuous :
+  wf_hist wdm wdd (w_hist 10) /\ acked_of (w_hist 10) = [wb1; wb3] /\ tried_of (w_hist 10) = [wb2] /\
+  final_fetch (run wdm (w_hist 0)) 3 = Some (Body (d_body wd3)) /\     (* orphan docs block *)
+  final_fetch (run wdm (w_hist 10)) 3 = Some (Body (d_body wd3)) /\    (* torn meta block *)
+  final_fetch (run wdm (w_hist 100)) 2 = Some (Body (d_body wd2)) /\   (* unacked, wholly present *)
+  final_fetch (run wdm (w_hist 36)) 2 = Some Absent.                    (* unacked, wholly absent *)
+Proof.
+  split; [apply w_wf |]. split; [reflexivity |]. split; [reflexivity |].
+  split; [exact w_repaired_orphan |]. split; [exact w_repaired_torn |]. exact w_repaired_complete_unacked.
+Qed.
+
+(* ---------- the start-up before commit 581f818 (restart_v0: writers at the raw file sizes,
+   nothing truncated) violates both statements ---------- *)
+
+(* defect #1: crash between the docs write and the meta write, start, further bulk, start:
+   the acknowledged document 3 is then served with document 2's bytes *)
+Example C01_v0_refuted_orphan_docs :
+  exists h s p b d,
+    wf_hist wdm wdd h /\ run_v0 wdm h = Ok s /\ s_proc s = Some p /\
+    In b (acked_of h) /\ In d (b_docs b) /\
+    fetch wdd (s_disk s) p (d_id d) <> Body (d_body d).
+Proof.
+  exists (w_hist 0).
+  destruct (run_v0 wdm (w_hist 0)) as [s | |] eqn:E; try (vm_compute in E; discriminate E).
+  destruct (s_proc s) as [p |] eqn:Ep.
+  - exists s, p, wb3, wd3. split; [apply w_wf |]. split; [reflexivity |]. split; [exact Ep |].
+    split; [right; left; reflexivity |]. split; [left; reflexivity |].
+    pose proof w_v0_orphan as W. unfold final_fetch in W. rewrite E, Ep in W.
+    inversion W as [W']. intro C. rewrite C in W'. vm_compute in W'. discriminate W'.
+  - exfalso. pose proof w_v0_orphan as W. unfold final_fetch in W. rewrite E, Ep in W. discriminate W.
+Qed.
+
+(* defect #2: torn meta write, start, further bulk, start: the second start dies *)
+Example C01_v0_refuted_torn_meta :
+  exists h, wf_hist wdm wdd h /\ run_v0 wdm h = Panic.
+Proof. exists (w_hist 10). split; [apply w_wf | exact w_v0_torn]. Qed.
